@@ -201,7 +201,7 @@ impl ConfModel {
             self.api_listeners.iter().map(|d| format!("\"{}\"", d)).collect::<Vec<_>>().join(", ")
         ));
         if let Some(acls) = &self.acls {
-            s.push_str("acls:\n");
+            s.push_str(if acls.is_empty() { "acls: []\n" } else { "acls:\n" });
             for a in acls {
                 let mut parts = vec![];
                 if let Some(sn) = &a.subnets {
@@ -341,6 +341,9 @@ pub enum StepKind {
     /// the k-th mutating disk call from now fails
     DiskFault { k: u64, full: bool },
     Http { path: String, via: HttpVia, from: String },
+    /// an API request from an arbitrary source, judged against the ACL model;
+    /// `from`/`to` are socket addresses, or unix:<path>, unix:@<abstract>, unix:unnamed
+    AclHttp { path: String, from: String, to: String },
 }
 
 #[derive(Clone, Debug, Serialize, Deserialize)]
@@ -363,6 +366,31 @@ pub struct PlanA {
     pub eintr_p: f64,
     /// rows placed in the store before first boot: (address, clientid, start, expiry)
     pub prefill: Vec<(Ipv4Addr, Vec<u8>, i64, i64)>,
+    /// an on-disk image written by another version of erbium, present before first boot
+    #[serde(default)]
+    pub image: Option<Image>,
+    /// kill the process just before its k-th mutating disk call, counted from first boot
+    #[serde(default)]
+    pub crash_at_total: Option<u64>,
+    /// restart-equivalence pair: also run the plan with a clean restart before this step
+    #[serde(default)]
+    pub pair_split: Option<usize>,
+}
+
+#[derive(Clone, Debug, Serialize, Deserialize)]
+pub struct ImageRow {
+    pub address: String,
+    pub clientid: Option<Vec<u8>>,
+    pub start: i64,
+    pub expiry: i64,
+}
+
+#[derive(Clone, Debug, Serialize, Deserialize)]
+pub enum Image {
+    /// the unversioned original schema (no options column)
+    V0 { rows: Vec<ImageRow>, version_table: bool, version_row: bool },
+    /// a database written by a newer erbium
+    Newer { version: i64, rows: Vec<ImageRow> },
 }
 
 pub struct GenOpts {
@@ -645,6 +673,7 @@ fn profile(shape: &str) -> Profile {
         "rhythm" => Profile { lans: &[1], w_dhcp: 90, w_clock: 8, w_restart: 2, w_swap: 0, w_http: 0, w_diskfault: 0, rhythm: true, tracers: false, two_configs: 0.0, odd_hlen: 0.0, ..base },
         "wire" => Profile { w_restart: 1, w_http: 0, w_diskfault: 0, tracers: true, odd_hlen: 0.25, ..base },
         "listing" => Profile { w_http: 22, w_dhcp: 64, w_diskfault: 0, nasty: 1.0, tracers: false, ..base },
+        "pairbase" => Profile { w_restart: 0, w_swap: 0, w_http: 0, w_diskfault: 0, two_configs: 0.0, ..base },
         "hostile" => Profile { w_raw: 40, w_dhcp: 45, w_http: 0, w_diskfault: 0, ..base },
         _ => base,
     }
@@ -653,6 +682,21 @@ fn profile(shape: &str) -> Profile {
 pub fn generate(seed: u64, opts: &GenOpts) -> PlanA {
     if opts.shape.starts_with("drain") {
         return generate_drain(seed, opts.shape == "drain-large");
+    }
+    if opts.shape == "acl-http" {
+        return generate_acl_http(seed, opts.thorough);
+    }
+    if opts.shape == "cp-history" || opts.shape == "images" {
+        return generate_small(seed, opts.shape == "images");
+    }
+    if opts.shape == "restart-pair" {
+        let mut p = generate(seed, &GenOpts { shape: "pairbase", thorough: opts.thorough });
+        p.shape = "restart-pair".into();
+        let mut r = Rng::new(seed, "pair");
+        /* split between two instants */
+        let cands: Vec<usize> = (1..p.steps.len()).filter(|i| p.steps[*i].at_ms > p.steps[*i - 1].at_ms + 10).collect();
+        p.pair_split = if cands.is_empty() { None } else { Some(*r.pick(&cands)) };
+        return p;
     }
     let mut r = Rng::new(seed, "plan-a");
     let shape = opts.shape;
@@ -908,6 +952,9 @@ pub fn generate(seed: u64, opts: &GenOpts) -> PlanA {
         spurious_p: if r.chance(0.3) { 0.05 } else { 0.0 },
         eintr_p: if r.chance(0.3) { 0.05 } else { 0.0 },
         prefill: vec![],
+        image: None,
+        crash_at_total: None,
+        pair_split: None,
     }
 }
 
@@ -1021,5 +1068,236 @@ pub fn generate_drain(seed: u64, large: bool) -> PlanA {
         spurious_p: 0.0,
         eintr_p: 0.0,
         prefill,
+        image: None,
+        crash_at_total: None,
+        pair_split: None,
+    }
+}
+
+fn gen_image_rows(r: &mut Rng, lan: &Lan, clients: &[ClientSpec], wall: i64, arbitrary: bool) -> Vec<ImageRow> {
+    let hs: Vec<u32> = hosts(lan.network(), lan.plen).into_iter().collect();
+    let mut rows: Vec<ImageRow> = vec![];
+    for _ in 0..r.range(0, 6) {
+        let a = Ipv4Addr::from(*r.pick(&hs)).to_string();
+        if rows.iter().any(|x| x.address == a) {
+            continue;
+        }
+        let clientid = match r.below(5) {
+            0 if !clients.is_empty() => Some(r.pick(clients).chaddr.clone()),
+            1 if arbitrary => None,
+            2 => Some(vec![]),
+            _ => Some(gen_bytes(r, 40, true)),
+        };
+        let (start, expiry) = if arbitrary && r.chance(0.4) {
+            /* any u32 values, including expiry before start */
+            /* (rows an erbium could have written: expiry is never before start) */
+            let pickv = |r: &mut Rng| *r.pick(&[0i64, 1, 0x7fff_ffff, 0xffff_ffff, wall, wall - 1, wall + 1, wall + 86400]);
+            let (a, b) = (pickv(r), pickv(r));
+            (a.min(b), a.max(b))
+        } else {
+            let s = wall - r.range(0, 100_000) as i64;
+            (s, s + r.range(300, 86400) as i64)
+        };
+        rows.push(ImageRow { address: a, clientid, start, expiry });
+    }
+    rows
+}
+
+/// Small histories for the crash-point enumeration and the image checks:
+/// one LAN, one or two clients, at most three allocations.
+pub fn generate_small(seed: u64, images: bool) -> PlanA {
+    let mut r = Rng::new(seed, "plan-a-small");
+    let lan = gen_lan(&mut r, 0, false);
+    let clients: Vec<ClientSpec> = (0..r.range(1, 2) as usize)
+        .map(|i| ClientSpec { chaddr: vec![0x02, 0, 0, 0, 0x21, i as u8 + 1], client_id: if r.chance(0.3) { Some(gen_bytes(&mut r, 20, false)) } else { None }, hostname: Some(b"host".to_vec()), lan: 0 })
+        .collect();
+    let conf = ConfModel {
+        addresses: vec![(Ipv4Addr::from(lan.network()), lan.plen)],
+        policies: vec![],
+        captive_portal: None,
+        dns_search: vec![],
+        api_listeners: vec!["127.0.0.1:9968".into()],
+        acls: None,
+    };
+    let wall_base = 1_700_000_000 + r.below(200_000_000) as i64;
+    let image = match (images, r.below(if images { 5 } else { 6 })) {
+        (true, 0) => Some(Image::Newer { version: *r.pick(&[2i64, 3, 255, 0x7fff_ffff, i64::MAX]), rows: gen_image_rows(&mut r, &lan, &clients, wall_base, false) }),
+        (_, 1) => Some(Image::V0 { rows: gen_image_rows(&mut r, &lan, &clients, wall_base, images), version_table: true, version_row: true }),
+        (_, 2) => Some(Image::V0 { rows: gen_image_rows(&mut r, &lan, &clients, wall_base, images), version_table: false, version_row: false }),
+        (_, 3) => Some(Image::V0 { rows: gen_image_rows(&mut r, &lan, &clients, wall_base, images), version_table: true, version_row: false }),
+        _ => None,
+    };
+    let mut steps = vec![];
+    let mut t = 1000u64;
+    let mut xid = 0x3000_0000u32;
+    for _ in 0..r.range(1, 3) {
+        t += *r.pick(&[1u64, 500, 2_000, 400_000]);
+        let ci = r.below(clients.len() as u64) as usize;
+        let (mtype, requested) = if r.chance(0.5) { (1u8, AddrRef::None) } else { (3u8, AddrRef::LastOffered) };
+        xid += 1;
+        steps.push(Step {
+            at_ms: t,
+            kind: StepKind::Dhcp(MsgSpec {
+                client: ci,
+                lan: 0,
+                mtype: Some(mtype),
+                ciaddr: AddrRef::None,
+                requested,
+                server_id: None,
+                flags: 0,
+                giaddr: None,
+                with_client_id: true,
+                with_hostname: true,
+                param_list: vec![1, 3, 51, 54],
+                extra: vec![],
+                xid,
+                must_answer: false,
+            }),
+        });
+    }
+    PlanA {
+        seed,
+        shape: if images { "images".into() } else { "cp-history".into() },
+        lans: vec![lan],
+        configs: vec![conf],
+        clients,
+        steps,
+        wall_base,
+        yield_p: 0.0,
+        spurious_p: 0.0,
+        eintr_p: 0.0,
+        prefill: vec![],
+        image,
+        crash_at_total: None,
+        pair_split: None,
+    }
+}
+
+pub fn lan_v6(l: &Lan) -> std::net::Ipv6Addr {
+    std::net::Ipv6Addr::new(0x2001, 0xdb8, l.ifidx as u16, 0, 0, 0, 0, 1)
+}
+
+/// An address at or next to an edge of a written prefix (or inside it).
+pub fn edge_address(r: &mut Rng, prefix: &str) -> Option<std::net::IpAddr> {
+    let (a, l) = prefix.split_once('/')?;
+    let len: u32 = l.parse().ok()?;
+    match a.parse::<std::net::IpAddr>().ok()? {
+        std::net::IpAddr::V4(n) => {
+            let m = if len == 0 { 0 } else { !0u32 << (32 - len.min(32)) };
+            let lo = u32::from(n) & m;
+            let hi = lo | !m;
+            let v = match r.below(6) {
+                0 => lo,
+                1 => hi,
+                2 => lo.wrapping_sub(1),
+                3 => hi.wrapping_add(1),
+                4 => u32::from(n),
+                _ => lo.wrapping_add(r.below((hi - lo) as u64 + 1) as u32),
+            };
+            Some(std::net::IpAddr::V4(Ipv4Addr::from(v)))
+        }
+        std::net::IpAddr::V6(n) => {
+            let m = if len == 0 { 0 } else { !0u128 << (128 - len.min(128)) };
+            let lo = u128::from(n) & m;
+            let hi = lo | !m;
+            let v = match r.below(5) {
+                0 => lo,
+                1 => hi,
+                2 => lo.wrapping_sub(1),
+                3 => hi.wrapping_add(1),
+                _ => u128::from(n),
+            };
+            Some(std::net::IpAddr::V6(std::net::Ipv6Addr::from(v)))
+        }
+    }
+}
+
+/// The HTTP half of C08: arbitrary ACL lists, API requests from sources
+/// inside, outside and at the edges of every prefix, over TCP (IPv4, IPv6,
+/// IPv4 on a dual-stack listener) and the unix sockets.
+pub fn generate_acl_http(seed: u64, thorough: bool) -> PlanA {
+    let mut r = Rng::new(seed, "plan-a-acl");
+    let lans: Vec<Lan> = (0..r.range(1, 2) as usize).map(|i| gen_lan(&mut r, i, false)).collect();
+    let mut pool4: Vec<Ipv4Addr> = lans.iter().map(|l| l.server_ip).collect();
+    pool4.extend([Ipv4Addr::LOCALHOST, Ipv4Addr::new(203, 0, 113, 9), Ipv4Addr::new(10, 0, 0, 1)]);
+    let mut pool6: Vec<std::net::Ipv6Addr> = lans.iter().map(lan_v6).collect();
+    pool6.extend([std::net::Ipv6Addr::LOCALHOST, "2001:db8:ffff::5".parse().unwrap()]);
+    let dual = r.chance(0.5);
+    let mut listeners: Vec<String> = vec!["/var/lib/erbium/control".into(), "@erbium-abstract".into()];
+    if dual {
+        listeners.push("[::]:9968".into());
+    } else {
+        listeners.push("0.0.0.0:9968".into());
+        listeners.push(format!("[{}]:9968", lan_v6(&lans[0])));
+        listeners.push("[::1]:9968".into());
+    }
+    let acls = if r.chance(0.12) { None } else { Some(crate::acl_model::gen_acls(&mut r, &pool4, &pool6)) };
+    let conf = ConfModel {
+        addresses: lans.iter().map(|l| (if r.chance(0.4) { l.server_ip } else { Ipv4Addr::from(l.network()) }, l.plen)).collect(),
+        policies: vec![],
+        captive_portal: None,
+        dns_search: vec![],
+        api_listeners: listeners,
+        acls: acls.clone(),
+    };
+    let prefixes: Vec<String> = match &acls {
+        Some(a) => a.iter().flat_map(|x| x.subnets.clone().unwrap_or_default()).collect(),
+        None => lans.iter().map(|l| format!("{}/{}", Ipv4Addr::from(l.network()), l.plen)).chain(["127.0.0.0/8".to_string(), "::1/128".to_string()]).collect(),
+    };
+    let mut steps = vec![];
+    let mut t = 1000u64;
+    /* one lease so that the listing is not empty */
+    let clients = vec![ClientSpec { chaddr: vec![2, 0, 0, 0, 0x31, 1], client_id: None, hostname: Some(b"acl".to_vec()), lan: 0 }];
+    steps.push(Step {
+        at_ms: t,
+        kind: StepKind::Dhcp(MsgSpec { client: 0, lan: 0, mtype: Some(1), ciaddr: AddrRef::None, requested: AddrRef::None, server_id: None, flags: 0, giaddr: None, with_client_id: false, with_hostname: true, param_list: vec![1, 51, 54], extra: vec![], xid: 0x4000_0001, must_answer: false }),
+    });
+    for _ in 0..r.range(8, if thorough { 40 } else { 20 }) {
+        t += r.range(5, 5000);
+        let path = r.pick(&["/", "/metrics", "/api/v1/leases.json"]).to_string();
+        let (from, to) = match r.below(10) {
+            0 => ("unix:unnamed".to_string(), "unix:/var/lib/erbium/control".to_string()),
+            1 => ("unix:/tmp/c.sock".to_string(), "unix:@erbium-abstract".to_string()),
+            2 => ("unix:@client".to_string(), "unix:/var/lib/erbium/control".to_string()),
+            _ => {
+                let ip = if !prefixes.is_empty() && r.chance(0.7) {
+                    let pf: String = r.pick(&prefixes[..]).clone();
+                    edge_address(&mut r, &pf).unwrap_or(std::net::IpAddr::V4(Ipv4Addr::LOCALHOST))
+                } else if r.chance(0.5) {
+                    std::net::IpAddr::V4(*r.pick(&pool4))
+                } else {
+                    std::net::IpAddr::V6(*r.pick(&pool6))
+                };
+                /* a source must be a usable unicast address */
+                let ip = match ip {
+                    std::net::IpAddr::V4(a) if a.is_unspecified() || a.is_broadcast() || a.is_multicast() => std::net::IpAddr::V4(Ipv4Addr::new(192, 0, 2, 77)),
+                    std::net::IpAddr::V6(a) if a.is_unspecified() || a.is_multicast() || a.to_ipv4_mapped().is_some() => std::net::IpAddr::V6("2001:db8:ffff::77".parse().unwrap()),
+                    x => x,
+                };
+                let port = r.range(1024, 65000);
+                let to = match ip {
+                    std::net::IpAddr::V4(_) => format!("{}:9968", if r.chance(0.5) { lans[0].server_ip } else { Ipv4Addr::LOCALHOST }),
+                    std::net::IpAddr::V6(_) => format!("[{}]:9968", if r.chance(0.5) { lan_v6(&lans[0]) } else { std::net::Ipv6Addr::LOCALHOST }),
+                };
+                (std::net::SocketAddr::new(ip, port as u16).to_string(), to)
+            }
+        };
+        steps.push(Step { at_ms: t, kind: StepKind::AclHttp { path, from, to } });
+    }
+    PlanA {
+        seed,
+        shape: "acl-http".into(),
+        lans,
+        configs: vec![conf],
+        clients,
+        steps,
+        wall_base: 1_700_000_000 + r.below(200_000_000) as i64,
+        yield_p: 0.0,
+        spurious_p: 0.0,
+        eintr_p: 0.0,
+        prefill: vec![],
+        image: None,
+        crash_at_total: None,
+        pair_split: None,
     }
 }
